@@ -8,6 +8,10 @@ R2 DCT_2D: the summands of ddR, ddZ, d2dR2, d2dZ2, d2dRdZ are the formal derivat
 R3 location fan-out blocks mention one location each and cover all four.
 R4 both arms of the interpolant builder define the same functions with the same meaning.
 R5 fpolprime is d(fpol)/dpsi in every Equilibrium implementation.
+R6 the functions the interpolant builder defines keep nothing between calls: no store to
+   (or in-place change of) a variable of the enclosing scope, the equilibrium or a module
+   global.  A kept reference to the caller's argument array is a definite violation; any
+   other kept state is reported as undecided.
 Not decided: interpolation error, agreement of the two methods on data.
 """
 import ast
@@ -35,6 +39,7 @@ def run(rep, tier):
     r2(prog, rep)
     r3(prog, rep)
     r5(prog, rep)
+    evaluator_state_rule(prog, rep)
     rep.undecided("interpolation error; agreement of spline and DCT on data")
     return __doc__
 
@@ -567,3 +572,81 @@ def fpol_variants(prog, mod, cname, ex, ctx):
             ca, cb = Closure(na, {}, ex, "fpol"), Closure(nb, {}, ex, "fpolprime")
             out.append(("/lambda", (lambda p, ca=ca: ex.call_closure(ca, [p], {})), (lambda p, cb=cb: ex.call_closure(cb, [p], {})), fb.site(sb)))
     return out
+
+
+# ---------------------------------------------------------------------------------
+def evaluator_state_rule(prog, rep, R="R6"):
+    """A field function is a function of its argument only if nothing it (or a helper the
+    builder defines next to it) writes survives the call.  Writes that survive: stores and
+    in-place changes whose root is a free variable of the nested function, `self`, or a name
+    declared nonlocal/global.  What the write keeps decides the verdict:
+      - a reference to one of the function's own parameters (`memo["R"] = R`): definite - the
+        caller's later in-place updates change what the interpolant compares with or returns;
+      - anything else: the rule cannot decide whether the memo is keyed completely -> undecided.
+    """
+    from ..effects import param_mutations
+    rep.rule(R, "functions defined by the interpolant builder (and the multi-location wrapper) keep no state between calls")
+    mod = prog.module(EQ)
+    builder = prog.unique_func_assigning(["Bp_R", "Bp_Z", "f_R", "f_Z"], EQ)
+    hosts = [builder]
+    for f in mod.funcs.values():
+        if f.qualname.endswith(".handleMultiLocationArray"):
+            hosts.append(f)
+    nested = []
+    for h in hosts:
+        for n in ast.walk(h.node):
+            if isinstance(n, ast.FunctionDef) and n is not h.node:
+                nested.append((h, n))
+    rep.floor(R + ".nested-functions", len(nested), 9)
+    for h, fn in nested:
+        a = fn.args
+        params = [x.arg for x in a.posonlyargs + a.args + a.kwonlyargs] + ([a.vararg.arg] if a.vararg else []) + ([a.kwarg.arg] if a.kwarg else [])
+        stored, declared = set(), set()
+        for n in walk_own(fn):
+            if isinstance(n, ast.Name) and isinstance(n.ctx, ast.Store):
+                stored.add(n.id)
+            if isinstance(n, (ast.Nonlocal, ast.Global)):
+                declared.update(n.names)
+        local = (set(params) | stored) - declared
+        free = set()
+        for n in walk_own(fn):
+            if isinstance(n, ast.Name) and n.id not in local:
+                free.add(n.id)
+        free.discard("numpy")
+        owned = sorted(free | ({"self"} if "self" in params else set()))
+        bad = []
+        for node, who, kind in param_mutations(fn, mod, extra_owned=tuple(owned)):
+            if who in owned or who in declared:
+                bad.append((node, who, kind))
+        for n in walk_own(fn):
+            if isinstance(n, (ast.Assign, ast.AugAssign)):
+                for t in (n.targets if isinstance(n, ast.Assign) else [n.target]):
+                    if isinstance(t, ast.Name) and t.id in declared:
+                        bad.append((n, t.id, "rebinds a %s variable" % ("nonlocal/global")))
+        label = "%s.%s" % (h.qualname.split(".")[-1], fn.name)
+        if not bad:
+            rep.ob(R, "%s keeps no state between calls" % label, True, h.site(fn), "free variables read: %s" % ", ".join(sorted(free)[:8]), key="stateless/" + label)
+            continue
+        # what is kept?
+        reassigned = stored
+        definite = None
+        for node, who, kind in bad:
+            v = getattr(node, "value", None)
+            vals = [v] if v is not None else []
+            if isinstance(node, ast.Expr) and isinstance(node.value, ast.Call):
+                vals = list(node.value.args) + [k.value for k in node.value.keywords]
+            for v in vals:
+                cands = [v] + (list(v.elts) if isinstance(v, (ast.Tuple, ast.List)) else []) + (list(v.values) if isinstance(v, ast.Dict) else [])
+                for c in cands:
+                    if isinstance(c, ast.Name) and c.id in params and c.id != "self" and c.id not in reassigned:
+                        definite = (node, who, c.id)
+        node0, who0, kind0 = bad[0]
+        if definite:
+            node, who, pn = definite
+            rep.ob(R, "%s keeps no state between calls" % label, False, h.site(node),
+                   "definite: `%s` keeps a reference to the argument `%s` in `%s`, which outlives the call; the caller's in-place updates of that array then change what later calls compare with or return" % (mod.code(node)[:70], pn, who),
+                   key="stateless/" + label)
+        else:
+            rep.ob(R, "%s keeps no state between calls" % label, False, h.site(node0),
+                   "not representable: `%s` (%s of `%s`) survives the call; whether later results still depend on the argument only is not decided by this rule" % (mod.code(node0)[:70], kind0, who0),
+                   key="stateless/" + label)
